@@ -47,6 +47,8 @@ type vkScenario struct {
 	Q         vkQuery    `json:"q"`
 	Tampers   []vkTamper `json:"tampers,omitempty"`
 	NoAnchors bool       `json:"no_anchors,omitempty"`
+	// BadAnchors: the trust set is non-empty but unusable (key material does not decode: no root DS derivable)
+	BadAnchors bool `json:"bad_anchors,omitempty"`
 }
 
 func (s vkScenario) String() string {
@@ -55,7 +57,9 @@ func (s vkScenario) String() string {
 		t = append(t, x.Kind+"@"+x.Key.String())
 	}
 	extra := ""
-	if s.NoAnchors {
+	if s.BadAnchors {
+		extra = " unusable-anchors"
+	} else if s.NoAnchors {
 		extra = " no-anchors"
 	}
 	return fmt.Sprintf("rot%d %s [%s]%s", s.Rot, s.Q, strings.Join(t, ", "), extra)
@@ -524,7 +528,9 @@ func (w *vkWorld) vkRunOnce(s vkScenario, history bool) vkRunResult {
 	}
 	defer func() { w.lastLog, w.lastScen = w.sim.Count(""), s.String() }()
 	w.pl.Reset()
-	if s.NoAnchors {
+	if s.BadAnchors {
+		_ = w.pl.SetUnusableTrustAnchors()
+	} else if s.NoAnchors {
 		_ = w.pl.SetTrustAnchors(nil)
 	}
 	for _, tm := range s.Tampers {
@@ -657,7 +663,9 @@ func (w *vkWorld) vkKey(s vkScenario, class string) string {
 	if len(s.Tampers) == 0 {
 		k = fmt.Sprintf("%s|untampered:%s/%s", class, s.Q.Name, dns.TypeToString[s.Q.Type])
 	}
-	if s.NoAnchors {
+	if s.BadAnchors {
+		k += "|unusable-anchors"
+	} else if s.NoAnchors {
 		k += "|no-anchors"
 	}
 	return k
@@ -819,6 +827,14 @@ func (w *vkWorld) vkQueryCases(rot int, q vkQuery, kinds []vkKind) {
 		w.vkReport(na, rn)
 	} else {
 		c.Outcome("no-anchors:" + rn.outcomes[0])
+	}
+	// ... and a trust set that is there but unusable
+	ua := vkScenario{Rot: rot, Q: q, NoAnchors: true, BadAnchors: true}
+	ru := w.vkRun(ua, true)
+	if ru.verdict.Viol != "" {
+		w.vkReport(ua, ru)
+	} else {
+		c.Outcome("unusable-anchors:" + ru.outcomes[0])
 	}
 	if !q.F.CD {
 		w.vkKeyPairs(rot, q, r0.firstPath)
